@@ -198,6 +198,100 @@ fn parse(text: &str) -> Result<Result<Circuit, String>, Caught> {
     guarded(move || Circuit::from_qasm(&t))
 }
 
+/// The same text through the file entry point (`Circuit::from_file`).
+fn parse_file(text: &str) -> Result<Result<Circuit, String>, Caught> {
+    let dir = crate::fw::scratch_dir("c14");
+    let file = format!("{dir}/{:?}.qasm", std::thread::current().id()).replace(['(', ')'], "");
+    if std::fs::write(&file, text).is_err() {
+        return Err(Caught::Oracle(format!("cannot write scratch file {file}")));
+    }
+    let f = file.clone();
+    let res = guarded(move || Circuit::from_file(&f));
+    let _ = std::fs::remove_file(&file);
+    res
+}
+
+/// Entry point by flag; the label goes into the violation signature when it is the file one.
+fn parse_via(text: &str, via_file: bool) -> Result<Result<Circuit, String>, Caught> {
+    ctx().count(if via_file { "parse-entry:from_file" } else { "parse-entry:from_qasm" }, 1);
+    if via_file {
+        parse_file(text)
+    } else {
+        parse(text)
+    }
+}
+
+fn to_gate(g: &G) -> Gate {
+    let one = Circ { n: 64, gates: vec![g.clone()] };
+    to_quizx(&one).gates[0].clone()
+}
+
+/// How the quizx circuit under test is assembled: the property says "any circuit", and the gate
+/// list is a VecDeque whose memory layout depends on the construction history.
+#[derive(Clone, Copy, Debug, PartialEq)]
+enum Build {
+    Push,
+    /// last gates pushed first, then the first `k` with push_front (wrapped ring buffer)
+    Front(usize),
+    /// everything with push_front, in reverse (what extraction does)
+    AllFront,
+    /// built reversed with push, then reversed in place
+    Reversed,
+}
+
+impl Build {
+    fn label(&self) -> &'static str {
+        match self {
+            Build::Push => "push",
+            Build::Front(_) => "push+push_front",
+            Build::AllFront => "push_front-only",
+            Build::Reversed => "push-then-reverse",
+        }
+    }
+    fn draw(r: &mut Rng, len: usize) -> Build {
+        if len == 0 {
+            return Build::Push;
+        }
+        match r.below(8) {
+            0 | 1 | 2 | 3 => Build::Push,
+            4 | 5 => Build::Front(1 + r.below(len)),
+            6 => Build::AllFront,
+            _ => Build::Reversed,
+        }
+    }
+    fn build(&self, hc: &Circ) -> Circuit {
+        match *self {
+            Build::Push => to_quizx(hc),
+            Build::Front(k) => {
+                let k = k.min(hc.gates.len());
+                let mut q = Circuit::new(hc.n);
+                for g in &hc.gates[k..] {
+                    q.push(to_gate(g));
+                }
+                for g in hc.gates[..k].iter().rev() {
+                    q.push_front(to_gate(g));
+                }
+                q
+            }
+            Build::AllFront => {
+                let mut q = Circuit::new(hc.n);
+                for g in hc.gates.iter().rev() {
+                    q.push_front(to_gate(g));
+                }
+                q
+            }
+            Build::Reversed => {
+                let mut q = Circuit::new(hc.n);
+                for g in hc.gates.iter().rev() {
+                    q.push(to_gate(g));
+                }
+                q.reverse();
+                q
+            }
+        }
+    }
+}
+
 // ------------------------------------------------------------------------------------
 // (i) print / parse round trip
 // ------------------------------------------------------------------------------------
@@ -221,10 +315,30 @@ fn expected_of_circ(c: &Circ, tags: &str) -> Vec<EGate> {
 
 /// returns true when the round trip was judged fine
 fn check_roundtrip(family: &'static str, index: u64, circ: &Circ, record: bool) -> bool {
+    check_roundtrip_as(family, index, circ, record, Build::Push, false)
+}
+
+fn check_roundtrip_as(family: &'static str, index: u64, circ: &Circ, record: bool, how: Build, via_file: bool) -> bool {
     let c = ctx();
-    let qc = to_quizx(circ);
-    let detail0 = json!({"circuit": circ_json(circ)});
-    let text = match guarded(|| qc.to_qasm()) {
+    let qc = match guarded(|| how.build(circ)) {
+        Ok(q) => q,
+        Err(e) => {
+            c.inconclusive("oracle-error", json!({"msg": format!("building the circuit: {}", e.text())}));
+            return false;
+        }
+    };
+    if how != Build::Push {
+        c.count(&format!("built-by:{}", how.label()), 1);
+        if qc != to_quizx(circ) {
+            // quizx's own equality is not the oracle here, only a harness sanity check of the builder
+            c.inconclusive("oracle-error", json!({"msg": "alternative construction differs from the push construction"}));
+            return false;
+        }
+    }
+    let detail0 = json!({"circuit": circ_json(circ), "built_by": how.label()});
+    // `to_qasm` and `Display` are the two printing entry points
+    let use_display = index % 3 == 1;
+    let text = match guarded(|| if use_display { format!("OPENQASM 2.0;\ninclude \"qelib1.inc\";\n{qc}") } else { qc.to_qasm() }) {
         Ok(t) => t,
         Err(Caught::Oracle(m)) => {
             c.inconclusive("oracle-error", json!({"msg": m}));
@@ -237,8 +351,8 @@ fn check_roundtrip(family: &'static str, index: u64, circ: &Circ, record: bool) 
             return false;
         }
     };
-    let det = |extra: Value| json!({"circuit": circ_json(circ), "printed_qasm": text, "extra": extra});
-    match parse(&text) {
+    let det = |extra: Value| json!({"circuit": circ_json(circ), "built_by": how.label(), "parsed_via": if via_file { "from_file" } else { "from_qasm" }, "printed_qasm": text, "extra": extra});
+    match parse_via(&text, via_file) {
         Err(Caught::Oracle(m)) => {
             c.inconclusive("oracle-error", json!({"msg": m}));
             false
@@ -819,6 +933,13 @@ fn assemble(r: &mut Rng, regs: &Regs, defs: &[Def], stmts: &[String], late_at: O
             let q = regs.q.last().unwrap();
             s += &format!("qreg {}[{}];\n", q.name, q.size);
         }
+        if r.chance(0.08) {
+            // comment lines of their own (they may look like statements)
+            s += "// h q[0];\n";
+            if r.chance(0.3) {
+                s += "  // barrier q;\n";
+            }
+        }
         s += st;
         if r.chance(0.1) {
             s += " // comment ; x q[0];";
@@ -876,15 +997,15 @@ fn gen_program(r: &mut Rng, max_stmts: usize) -> Program {
     Program { text, regs, expected, features: feats }
 }
 
-fn check_text(family: &'static str, index: u64, p: &Program) {
+fn check_text(family: &'static str, index: u64, p: &Program, via_file: bool) {
     let c = ctx();
     for f in &p.features {
         c.count(&format!("feature:{f}"), 1);
     }
     let det = |extra: Value| {
-        json!({"qasm": p.text, "expected_qubits": p.regs.nq, "expected_gates": p.expected.iter().take(80).map(egate_json).collect::<Vec<_>>(), "features": p.features, "extra": extra})
+        json!({"qasm": p.text, "parsed_via": if via_file { "from_file" } else { "from_qasm" }, "expected_qubits": p.regs.nq, "expected_gates": p.expected.iter().take(80).map(egate_json).collect::<Vec<_>>(), "features": p.features, "extra": extra})
     };
-    match parse(&p.text) {
+    match parse_via(&p.text, via_file) {
         Err(Caught::Oracle(m)) => c.inconclusive("oracle-error", json!({"msg": m})),
         Err(e) => c.violation(&format!("text|parse-panic|{}", e.site()), family, index, det(json!({"panic": e.text()}))),
         Ok(Err(msg)) => {
@@ -1058,8 +1179,9 @@ fn check_reject(family: &'static str, index: u64, r: &mut Rng) {
     };
     c.count(&format!("reject:{class}"), 1);
     c.count(&format!("reject-position:{where_}"), 1);
-    let det = |extra: Value| json!({"qasm": text, "unsupported_statement": bad, "construct": class, "position": where_, "extra": extra});
-    match parse(&text) {
+    let via_file = r.chance(0.2);
+    let det = |extra: Value| json!({"qasm": text, "parsed_via": if via_file { "from_file" } else { "from_qasm" }, "unsupported_statement": bad, "construct": class, "position": where_, "extra": extra});
+    match parse_via(&text, via_file) {
         Err(Caught::Oracle(m)) => c.inconclusive("oracle-error", json!({"msg": m})),
         Err(e) => c.violation(&format!("reject|panic|{class}|{}", e.site()), family, index, det(json!({"expected": "Err(..)", "panic": e.text()}))),
         Ok(Err(msg)) => {
@@ -1192,7 +1314,9 @@ pub fn run() {
         if r.chance(0.3) {
             circ.n += 1 + r.below(3); // idle qubits at the end
         }
-        let ok = check_roundtrip("random-circuits", i, &circ, true);
+        let how = Build::draw(r, circ.gates.len());
+        let via_file = r.chance(0.15);
+        let ok = check_roundtrip_as("random-circuits", i, &circ, true, how, via_file);
         let c = ctx();
         c.count(if ok { "random:ok" } else { "random:bad" }, 1);
         c.count("random:gates", circ.gates.len() as u64);
@@ -1212,7 +1336,8 @@ pub fn run() {
     let n_text = t.pick(30_000usize, 6_000_000usize);
     par_cases("generated-texts", n_text, move |r, i| {
         let p = gen_program(r, 12);
-        check_text("generated-texts", i, &p);
+        let via_file = r.chance(0.2);
+        check_text("generated-texts", i, &p, via_file);
         let c = ctx();
         c.case("generated-texts", if p.expected.is_empty() { None } else { Some(hash_bytes(p.text.as_bytes())) });
         c.sample_n(6, || json!({"family": "generated-texts", "index": i, "qasm": p.text, "features": p.features}));
@@ -1222,7 +1347,7 @@ pub fn run() {
         let regs = gen_regs(r, 1, false);
         let text = assemble(r, &regs, &[], &[], None);
         let p = Program { text, regs, expected: vec![], features: vec!["zero-statements".into()] };
-        check_text("texts-without-statements", i, &p);
+        check_text("texts-without-statements", i, &p, i % 2 == 1);
         ctx().case("texts-without-statements", None);
     });
 
